@@ -35,6 +35,25 @@ extern "C" void h_unknown() {
     { AppText b; b.source = vp_u32("b.src"); b.text.resize(6); vp_bytes(&b.text[0], 6, "b.text"); MemFile m(encB, sizeof encB); b.write(m); lb = m.p; }
     SL = 0;
     put(encA, la);
+#ifdef EMBEDDED_IMAGE
+    // fixed shape for schedule exploration: no filler, an unknown object of 80 bytes (type 200) whose body carries a complete
+    // CanMessage image (id 0x666) - bytes that look like an object but lie inside the unknown one and must be skipped with it
+    {
+        unsigned char uh[16]; memcpy(uh, "LOBJ", 4); uint16_t hs = 16, hv = 1; uint32_t usz = 80, code = 200;
+        memcpy(uh + 4, &hs, 2); memcpy(uh + 6, &hv, 2); memcpy(uh + 8, &usz, 4); memcpy(uh + 12, &code, 4);
+        put(uh, 16);
+        unsigned char body[64]; memset(body, 0x55, sizeof body);
+        { CanMessage e; e.id = 0x666; MemFile m(body + 8, 48); e.write(m); }
+        long unknownEnd = SL + 64;
+        put(body, 64);
+        put(encB, lb);
+        IL = 0;
+        { FileStatistics fs; MemFile m(img, 144); fs.write(m); IL = 144; }
+        long c = unknownEnd - CUT; if (c < 1) c = 1; container(S, c); container(S + c, SL - c);
+        goto assembled;
+    }
+#endif
+    {
     // filler before the unknown object
     uint32_t f1 = (uint32_t)vp_concrete(vp_choose(4, "filler1"));
     unsigned char fb1[4]; vp_bytes(fb1, 4, "f1");
@@ -64,8 +83,18 @@ extern "C" void h_unknown() {
     { FileStatistics fs; MemFile m(img, 144); fs.write(m); IL = 144; }
     if (CUT == 0) container(S, SL);
     else { long c = unknownEnd - CUT; if (c < 1) c = 1; container(S, c); container(S + c, SL - c); }
+    }
+#ifdef EMBEDDED_IMAGE
+assembled:
+#endif
     vp_fs_put("a.blf", img, IL);
-    File g; g.open(VP_FILE("a.blf"), std::ios_base::in);
+    File g;
+#ifdef SCALED_STREAM
+    // back-pressure threshold scaled down (the API fixes it at 128 KiB): the inflater is parked behind the first container, as
+    // it is in a large file, when the decoder skips the unknown object across the container boundary
+    g.m_uncompressedFile.setBufferSize(16);
+#endif
+    g.open(VP_FILE("a.blf"), std::ios_base::in);
     VP_ASSERT(g.is_open());
     static unsigned char re[96];
     ObjectHeaderBase * o1 = g.read();
